@@ -88,6 +88,9 @@ var bytesAxioms = []smtAxiom{
 
 // World holds everything shared by a run.
 type World struct {
+	sigs      map[string]sigSnap // names the contracts were written against (spec/sigs.json)
+	tables    map[*ssa.Global]*tableInfo
+	tblObjs   []tblObj
 	Prog      *ssa.Program
 	Pkgs      []*packages.Package
 	SSAPkgs   map[string]*ssa.Package
